@@ -14,8 +14,10 @@ BASE_NOTE = (
 
 # one fragment per claimed property: harness/manifest/Cxx.json with keys text, note, technique, design_ref
 CLAIMED = {}
+# only properties listed in harness/manifest/ENABLED are claimed (a fragment may exist before its check is finished)
+ENABLED = set(open(os.path.join(VERIF, "harness", "manifest", "ENABLED"), encoding="utf-8").read().split())
 for _fn in sorted(os.listdir(os.path.join(VERIF, "harness", "manifest"))):
-    if _fn.endswith(".json"):
+    if _fn.endswith(".json") and _fn[:-5] in ENABLED:
         CLAIMED[_fn[:-5]] = json.load(open(os.path.join(VERIF, "harness", "manifest", _fn), encoding="utf-8"))
 
 NOT_YET = {}
